@@ -22,8 +22,16 @@ from recursion import resolver_returns_no_reference
 
 
 def cycle_key(inst, nodes):
+    """a recursion is named by the public functions and trait methods on it: a private helper or a closure that a maintainer moves a
+    part of one of them into (`build_filters(..)`) does not make it another recursion"""
     bodies = sorted({inst.nodes[n]["body"] for n in nodes})
-    return " | ".join(bodies)
+    fb = getattr(getattr(inst, "f", None), "bodies", {})
+
+    def private(bid):
+        b = fb.get(bid)
+        return b is not None and (b["kind"] == "Closure" or (not b.get("pub") and not (b.get("impl") or {}).get("trait")))
+    named = [x for x in bodies if not private(x)]
+    return " | ".join(named or bodies)
 
 
 def rule_guard(ctx, f):
